@@ -554,6 +554,20 @@ def build(world, rt, name='w', tol=None, reorder=False, problem_kwargs=None):
                     kw['src_indices'] = to_index(i['idx'])
                     kw['flat_src_indices'] = bool(i['flat'])
                 groups[at].connect(rel_name(world, i['src'], at), rel_name(world, i['name'], at), **kw)
+    # discrete connections (root level, by promoted name)
+    def disc_name(c, var):
+        name = var if c['prom'] else c['name'] + '.' + var
+        g = c['group']
+        while g:
+            if not world['groups'][g]['prom']:
+                name = g.split('.')[-1] + '.' + name
+            g = world['groups'][g]['parent']
+        return name
+    downer = {d['name']: c for c in world['comps'] for d in c.get('discrete_out', [])}
+    for c in world['comps']:
+        for d in c.get('discrete_in', []):
+            if d.get('src'):
+                p.model.connect(disc_name(downer[d['src']], d['src']), disc_name(c, d['name']))
     # design variables and responses (declared on the model by root-level promoted name)
     for dv in world.get('dvs', []):
         kw = {k: dv[k] for k in ('indices', 'scaler', 'adder', 'ref', 'ref0', 'lower', 'upper', 'units') if k in dv}
